@@ -631,6 +631,17 @@ func (ex *Exec) appendBuiltin(st *State, args []Value, x *ssa.Call) Value {
 	if l2 == IntLit(0) {
 		return s
 	}
+	// with spare capacity append writes into the backing array of its first argument: a write to
+	// memory the function did not allocate itself is recorded (frame obligations)
+	for _, al := range s.Alts {
+		if al.O != nil && !al.O.fresh && And(st.pc, al.C) != TFalse {
+			fn := ""
+			if len(ex.stack) > 0 {
+				fn = fnName(ex.stack[len(ex.stack)-1])
+			}
+			ex.writes = append(ex.writes, WriteRec{C: And(st.pc, al.C), O: al.O, Pos: ex.pos(x.Pos()) + " (append into a backing array it does not own)", Fn: fn})
+		}
+	}
 	total := Add(l1, l2)
 	n1, c1 := l1.IntVal()
 	n2, c2 := l2.IntVal()
